@@ -112,11 +112,63 @@ def run(chk):
                                distribution={"ops": sum(len(r[0]) for r in extra)})
         runs += extra
     monitor_all(chk, runs)
+    two_instances_monitor(chk)
     chk.extra["rule"] = "theorems of Properties/C03.lean over the regenerated constants; correspondence sequences and monitor traces generated from VERIF_SEED"
     chk.extra["distinct_nontrivial"] = len(runs)
 
 
+def two_instances_monitor(chk):
+    """Disinfection runs TWO PWM controllers (pH and chlorine) in one process: one dosing at full duty while the other idles,
+    their 1 s tick loops out of phase; each pump must still respect ITS cap (state shared between the instances would show)."""
+    pc.boot()
+    import datetime as dt
+
+    from controller.disinfection import PWM
+    from sim import runtime
+
+    bad, n = [], 0
+    for secdur, period, phase in [(60, 10, 0.5), (120, 20, 0.25), (60, 10, 0.0), (90, 15, 0.75)]:
+        n += 1
+        w = runtime.World(pc.T0)
+        pumps = [pc.Pump(w), pc.Pump(w)]
+        saved = PWM.SECURITY_DURATION
+        PWM.SECURITY_DURATION = secdur
+        refs = []
+        try:
+            refs = [PWM.start("pH", pumps[0], period, 0), PWM.start("cl", pumps[1], period, 0)]
+        finally:
+            PWM.SECURITY_DURATION = saved
+        actors = [a for a in w.actors if a.__class__.__name__ == "PWM"]
+        try:
+            actors[0].value, actors[1].value = 1.0, 0.0
+            horizon = secdur * 4
+            for k in range(horizon):
+                w.now_us = int(k * 1e6)
+                actors[0].do_run()
+                w.now_us = int((k + phase) * 1e6)
+                actors[1].do_run()
+                if len(w.timers) > 64:
+                    w.timers.clear()
+            end = int(horizon * 1e6)
+            e = pc.energised_between(pumps[0].log, 0, end, end)
+            cap = (secdur + period) * 1_000_000
+            if e > cap:
+                bad.append({"security_duration": secdur, "period": period, "phase_s": phase, "energised_s": e / 1e6, "cap_s": cap / 1e6})
+        finally:
+            w.timers.clear()
+            import pykka
+            for r in refs:
+                try:
+                    pykka.ActorRegistry.unregister(r)
+                except Exception:  # noqa: BLE001
+                    pass
+    chk.correspondence("two PWM instances in one process (as Disinfection creates them), one dosing at full duty, the other idle, ticks out of phase: energised time of the dosing pump within the first security window <= S + one period", n, len(bad), detail=bad[:3] or None)
+    for b in bad[:1]:
+        chk.violation("cap-exceeded-with-two-instances", f"pump energised {b['energised_s']:.1f} s within one security window (cap {b['cap_s']:.0f} s) while a second PWM instance idles with ticks {b['phase_s']} s out of phase", {"kind": "pwm-two-instances", "case": b})
+
+
 def search(chk):
+    two_instances_monitor(chk)
     """Monitor only (used when the machinery itself broke on this tree)."""
     rng, pl = plan(chk)
     runs = []
